@@ -587,8 +587,12 @@ def check_py_native(res):
     ok = False
     for k, st in enumerate(call.body):
         if isinstance(st, ast.Try):
+            check_names = set(["self._check_native"])
+            for a in ast.walk(call):          # a local bound to the checking method
+                if isinstance(a, ast.Assign) and pyfront.unparse(a.value) == "self._check_native":
+                    check_names |= set(t.id for t in a.targets if isinstance(t, ast.Name))
             checks = [c for b in st.body for c in ast.walk(b) if isinstance(c, ast.Call)
-                      and pyfront.unparse(c.func) == "self._check_native" and c.args and (
+                      and pyfront.unparse(c.func) in check_names and c.args and (
                           pyfront.unparse(c.args[0]) == "self._as_packable(%s)" % item or
                           (isinstance(c.args[0], ast.Name) and c.args[0].id in packed))]
             before = [r for b in call.body[:k] for r in ast.walk(b) if isinstance(r, ast.Return)]
